@@ -26,7 +26,12 @@ CORR_NAME = "models-initial-state-apply-observations-goal"
 RULE = ("one case = one generated contingent problem (types T>S,U; Boolean/int/bounded-int/real/bounded-real/object fluents with "
         "parameters; every fluent's initial value declared as explicit values, per-fluent default, per-type default or a mix, "
         "with per-type defaults for a random subset of the seven fluent types; 0-3 oneof/or/unknown initial constraints over "
-        "2-3 literals (18% negated) of the ground Boolean fluents, occasionally contradictory; 1-3 ordinary actions of "
+        "2-3 literals (18% negated) of the ground Boolean fluents, occasionally contradictory; the HIDDEN ground fluents "
+        "additionally carry explicit initial values in 4 of 6 cases (per case one of: none / each with probability 1/2 a "
+        "random value / all a random value / all the negation of the resolved default), whatever the declaration mode of "
+        "their fluent, so that every combination resolved default in {none, true, false} (per-fluent or per-type) x explicit "
+        "value in {absent, equal, different} x chosen value occurs, also for atoms hidden only through a negated literal and "
+        "for parametrised fluents with hidden and non-hidden groundings side by side; 1-3 ordinary actions of "
         "upp.ProblemGen's grammar (conditional/forall/increase/decrease effects, quantified conditions), ~40% of them turned "
         "into sensing actions with 1-2 observed fluents, plus a parametrised sensing action observing (and sometimes writing) a "
         "hidden fluent) x one random seed x max_constraints in {None (85%), 1, 2, 3} x a sequence of 6 (quick) / 10 (thorough) "
@@ -40,7 +45,9 @@ ASSUMPTIONS = [
     "hidden fluents are Boolean ground fluent expressions; a literal Not(f) hides f (as in Ks0Compiler._literal_parts)",
     "every non-hidden ground fluent has a declared initial value (explicit, per-fluent default or per-type default): the "
     "property is silent about undeclared ones (after the repair they stay undefined, as in the plain simulator)",
-    "a hidden fluent has no explicit initial value (contradictory input, silently dropped by the code)",
+    "an explicit initial value given to a hidden fluent is not a declaration the environment has to honour: the property text "
+    "lets the environment PICK the hidden state, so the oracle demands the constraints of the state actually observed and "
+    "replays on a reference problem whose hidden fluents carry the observed values (the code drops such explicit values)",
     "contradictory initial constraints: no faithful hidden state exists; the environment's constructor raises (IndexError "
     "from random.choice) and the oracle accepts any exception there; model and code are compared on `construction failed`",
     "no trajectory constraints / timed effects / timed goals (the deterministic clone does not copy them; outside the quantifier text)",
@@ -59,6 +66,7 @@ MODELLED = [
     "element is an input of the model, which checks that it is one of them",
     "harness reads the local `symbol_to_fnode` of _randomly_set_full_initial_state through the frame of the random.choice call",
 ]
+EXTRA_PROPS = ["UPVerif.Props.C35Hidden"]
 BUDGET_S = {"quick": 50, "thorough": 420}
 SEARCH_S = {"quick": 40, "thorough": 200}
 
@@ -338,6 +346,27 @@ def gen_constraints(rng, g):
     return oneofs, ors
 
 
+def resolved_default(dflt, ref, tdefs):
+    """`problem.fluents_defaults.get(fluent)` in payload terms: per-fluent default, else per-type default, else None"""
+    if dflt != "_":
+        return dflt
+    for t, c in tdefs:
+        if t == ref[1]:
+            return c
+    return None
+
+
+def hidden_explicit(rng, hx_mode, dflt, ref, tdefs):
+    """explicit initial value for one HIDDEN ground Boolean fluent, or None: `some`/`all` draw the value at random (equal to /
+    different from / without a resolved default all occur), `neq` is the negation of the resolved default"""
+    if hx_mode == "none" or (hx_mode == "some" and rng.random() < 0.5):
+        return None
+    rd = resolved_default(dflt, ref, tdefs)
+    if hx_mode == "neq" and rd is not None:
+        return ["b", "F" if rd == ["b", "T"] else "T"]
+    return ["b", rng.choice(["T", "F"])]
+
+
 def gen_raw(rng):
     """a contingent problem in the payload's shape, before canonicalisation by the real builders"""
     g = upp.ProblemGen(rng, undefined=False, invariants=False, metrics=False)
@@ -362,6 +391,8 @@ def gen_raw(rng):
             tdefs.append([t, g.const_for(["_", t, []])])
     has_td = [t for t, _ in tdefs]
     fluents, init, modes = [], [], {}
+    # explicit initial values ON hidden atoms (the environment must ignore them: it picks the hidden state itself)
+    hx_mode = rng.choice(["none", "none", "some", "some", "all", "neq"])
     for n, ref in g.FL.items():
         mode = rng.choice(["pf", "pf", "pt", "pt", "ex", "mix"])
         if mode == "pt" and ref[1] not in has_td:
@@ -377,6 +408,9 @@ def gen_raw(rng):
         for combo in product(*doms):
             fe = ["fl", ref] + [["o", o, OBJT[o]] for o in combo]
             if fe in hatoms:
+                v = hidden_explicit(rng, hx_mode, dflt, ref, tdefs)
+                if v is not None:
+                    init.append([fe, v])
                 continue
             if mode == "ex" or (mode == "mix" and rng.random() < 0.5):
                 init.append([fe, g.const_for(ref)])
@@ -506,6 +540,45 @@ def nontrivial(payload, ans):
     return ms[0] == "models" and len(ms) >= 3 and any(isinstance(s, list) and s and s[0] == "ok" for s in ans[2])
 
 
+def hidden_tags(payload, ans):
+    """per hidden atom: resolved default x explicit value; per case: does an explicit value of a hidden atom exist, does the
+    chosen hidden state contradict one (`stale`), is a chosen value the default while the explicit value is not (`default-over-explicit`)"""
+    t = []
+    ps = payload[1]
+    tdefs = sec(payload, "type-defaults")
+    dflt_of = {sexp.dumps(ref): resolved_default(d, ref, tdefs) for ref, d in upp.get(ps, "fluents")}
+    expl = {sexp.dumps(f): v for f, v in upp.get(ps, "init")}
+    chosen = {}
+    if isinstance(ans, list) and len(ans) == 3 and isinstance(ans[1], list) and ans[1][:1] == ["state"]:
+        objtype = dict(map(tuple, upp.get(ps, "objects")))
+        for (ref, objs), v in zip(simlib.ground_keys(ps), ans[1][1:]):
+            chosen[sexp.dumps(["fl", ref] + [["o", o, objtype[o]] for o in objs])] = v
+    any_x = stale = dox = False
+    for a in hidden_atoms(payload):
+        k = sexp.dumps(a)
+        rd = dflt_of.get(sexp.dumps(a[1]))
+        x = expl.get(k)
+        dn = "none" if rd is None else rd[1]
+        xn = "absent" if x is None else "only" if rd is None else "eq" if x == rd else "neq"
+        t.append("hidden-atom:default-%s:explicit-%s" % (dn, xn))
+        if x is not None:
+            any_x = True
+            c = chosen.get(k)
+            if c is not None and c != x:
+                stale = True
+                if rd is not None and c == rd:
+                    dox = True
+    if hidden_atoms(payload):
+        t.append("hidden-explicit:" + ("no" if not any_x else "yes"))
+        if stale:
+            t.append("hidden-explicit:overridden-by-choice")
+        if dox:
+            t.append("hidden-explicit:overridden-by-choice=default")
+        if any(x[0] == "not" and x[1] not in sec(payload, "hidden") and sexp.dumps(x[1]) in expl for x in sec(payload, "hidden")):
+            t.append("hidden-explicit:negated-only-atom")
+    return t
+
+
 def stats(payload, ans):
     t = []
     ms = ans[0] if isinstance(ans, list) and ans else None
@@ -528,6 +601,7 @@ def stats(payload, ans):
             t.append("default:per-type")
         else:
             t.append("default:explicit-only")
+    t.extend(hidden_tags(payload, ans))
     for s in ans[2]:
         if isinstance(s, list) and s:
             if s[0] == "ok":
@@ -727,6 +801,14 @@ def shrink(payload):
         p2 = [(["sensing"] + [x for x in sec(payload, "sensing") if x[0] != a[1]]) if isinstance(s, list) and s and s[0] == "sensing" else s
               for s in p2]
         yield p2
+    init = upp.get(ps, "init")
+    hat = hidden_atoms(payload)
+    for i in range(len(init)):
+        if init[i][0] in hat:    # explicit value of a hidden atom: removable without leaving the domain of the oracle
+            ps2 = [(["init"] + init[:i] + init[i + 1:]) if isinstance(s, list) and s and s[0] == "init" else s for s in ps]
+            p2 = list(payload)
+            p2[1] = ps2
+            yield p2
     goals = upp.get(ps, "goals")
     for i in range(len(goals)):
         ps2 = [(["goals"] + goals[:i] + goals[i + 1:]) if isinstance(s, list) and s and s[0] == "goals" else s for s in ps]
@@ -744,7 +826,9 @@ MANIFEST = {
                    "true, and every assignment with that property can be chosen; apply is Sim.apply on the current state "
                    "(inapplicable => UPUsageError and unchanged state), for whole histories, hence meets C01's declarative "
                    "successor semantics; observations are the values of the instantiated sensed fluents in the state AFTER the "
-                   "action; is_goal_reached is the simulator's goal test on the problem's goals. The model mirrors the repaired "
+                   "action; is_goal_reached is the simulator's goal test on the problem's goals. Props/C35Hidden.lean: explicit initial "
+                   "values given to hidden atoms are ignored (two problems differing only there yield the same environment) and "
+                   "every hidden atom, whatever its explicit value and default, reads as the chosen value. The model mirrors the repaired "
                    "execution_environment.py function by function and is tied to /repo on every run by a differential check "
                    "(model set handed to random.choice, initial state, every apply outcome + state) and an independent oracle "
                    "replaying the actions on a plain UPSequentialSimulator."),
